@@ -831,6 +831,7 @@ def run(ctx):
   ctx.exhaustive = False
   ctx.extra['crossover_sweep'] = dict(exhaustive=True, max_values=ctx.scale(4, 5), evaluations=crossover_sweep(ctx, ctx.scale(4, 5)),
                                       what='every pair of parent permutations x every pair of cutting points (PMX, Order) / every coin-flip sequence (Cycle): proposals are permutations')
+  ctx.extra['nsga2_operator_cases'] = nsga2_sweep(ctx, rng, ctx.scale(150, 2000))
   ctx.extra['systematic_sweep'] = dict(mode_specs=len(mode_specs()), selectors=len(sels), mutators=len(muts), pointwise=len(recs), two_parent=len(recs2))
   # violation search on the disagreeing cases first (the oracle has already run on every case)
   if ctx.is_broken() and not ctx.hits:
@@ -875,6 +876,67 @@ def crossover_sweep(ctx, nmax):
             return n_eval
   return n_eval
 
+def spec_features(s):
+  out = set()
+  def sp(s, d):
+    out.add('elements=%d' % min(len(s[1]), 3) if d == 0 else 'nested-elements=%d' % min(len(s[1]), 3))
+    for p in s[1]:
+      if p[0] == 'F': out.add('float'); continue
+      if p[0] != 'C': out.add('custom'); continue
+      out.add('choice k=%s%s%s n=%s' % ('1' if p[1] == 1 else '>1', ' distinct' if p[3] else '', ' sorted' if p[4] else '', 'k' if p[1] == len(p[2]) else '>k' if p[1] < len(p[2]) else '<k'))
+      if any(c[1] for c in p[2]): out.add('conditional depth>=%d' % (d + 1))
+      for c in p[2]: sp(c, d + 1)
+  sp(s, 0)
+  return sorted(out)
+
+def nsga2_sweep(ctx, rng, n):
+  """Oracle only: the NSGA-II operators (nondominated_sort, crowding_distance_sort and the pipeline the package composes from
+  them) return exactly the members of their input, keep the inputs unchanged and are functions of their input."""
+  pg, base, M, R, S, W = lib()
+  import importlib
+  nsga2 = importlib.import_module('pyglove.ext.evolution.nsga2')
+  spec = pg.dna_spec(pg.oneof([0, 1, 2, 3]))
+  dom = lambda a, b: all(x >= y for x, y in zip(a, b)) and any(x > y for x, y in zip(a, b))
+  done = 0
+  for _ in range(n):
+    m = rng.choice([0, 1, 2, 3, 5, 8]); k = rng.choice([1, 2, 2, 3])
+    objs = []
+    for i in range(m):
+      d = pg.DNA(rng.randrange(4), spec=spec); base.set_fitness(d, tuple(float(rng.randint(0, 3)) for _ in range(k))); objs.append(d)
+    pop = [rng.choice(objs) if objs and rng.random() < 0.1 else o for o in objs]
+    case = dict(kind='nsga2', fitness=[list(base.get_fitness(o)) for o in pop], alias=[objs.index(o) for o in pop])
+    before = [pg.to_json_str(o) for o in objs]
+    ids = sorted(id(o) for o in pop)
+    def fail(op, disc, what):
+      ctx.hit('C14/selector-members/nsga2.%s/%s' % (op, disc), what, case)
+    try:
+      fronts = nsga2.nondominated_sort()(pop)
+      if sorted(id(o) for f in fronts for o in f) != ids:
+        fail('nondominated_sort', 'not-a-partition', 'the frontiers are not a partition of the input population'); continue
+      fit = base.get_fitness
+      for i, f in enumerate(fronts):
+        later = [y for g in fronts[i:] for y in g]
+        if any(dom(fit(y), fit(x)) for x in f for y in later):
+          fail('nondominated_sort', 'dominated-member', 'a member of frontier %d is dominated by a member of the same or a later frontier' % i); break
+        if i > 0 and any(not any(dom(fit(y), fit(x)) for y in fronts[i - 1]) for x in f):
+          fail('nondominated_sort', 'frontier-too-late', 'a member of frontier %d is not dominated by any member of frontier %d' % (i, i - 1)); break
+      for f in fronts:
+        g = nsga2.crowding_distance_sort()(list(f))
+        if sorted(id(o) for o in g) != sorted(id(o) for o in f):
+          fail('crowding_distance_sort', 'not-a-permutation', 'the sorted frontier is not a permutation of the frontier'); break
+      pipe = lambda: (base.Lambda(nsga2.nondominated_sort()).for_each(nsga2.crowding_distance_sort()).flatten())(list(pop))
+      a, b = pipe(), pipe()
+      if sorted(id(o) for o in a) != ids:
+        fail('pipeline', 'not-a-permutation', 'nondominated_sort >> for_each(crowding_distance_sort) >> flatten does not return exactly the members of its input')
+      elif [id(o) for o in a] != [id(o) for o in b]:
+        fail('pipeline', 'nondeterministic', 'two runs on the same population give different orders')
+      if before != [pg.to_json_str(o) for o in objs]:
+        fail('pipeline', 'input-modified', 'pg.to_json of the input DNAs changed')
+    except Exception as e:   # pylint: disable=broad-except
+      ctx.hit('C14/raises/nsga2/%s' % msg_key(e), 'the NSGA-II operators raise %s on a population with tuple fitness: %s' % (type(e).__name__, str(e)[:160]), case)
+    done += 1
+  return done
+
 def process_case(c):
   """One case in a worker process: run the implementation with the recorder, evaluate the oracle.  Never raises:
   whatever the library does on an input inside the property's quantifier is an outcome / an oracle hit with the case as replay."""
@@ -885,7 +947,8 @@ def process_case(c):
     return dict(out=None, draws=[], hists=[('outcome', 'driver-exception:' + type(e).__name__)], nontrivial=False, contract=(0, []),
                 hits=[('C14/raises/driver/%s' % msg_key(e), 'building the objects of the case or observing the result raises %s: %s\n%s'
                        % (type(e).__name__, str(e)[:200], traceback.format_exc()[-600:]))])
-  hists = [('primitives', n) for n in set(names)] + [('expression_depth', depth_of(c['expr'])), ('population_size', len(c['pop'])),
+  hists = [('primitives', n) for n in set(names)] + [('spec_features', f) for f in spec_features(c['spec'])] + \
+          [('expression_depth', depth_of(c['expr'])), ('population_size', len(c['pop'])),
            ('draws', min(len(res['draws']), 20)), ('outcome', 'exception:' + type(res['exc']).__name__ if res['exc'] is not None else 'ok')]
   try:
     hits = oracle(c['spec'], c['expr'], c['pop'], c['seed'], res=res, determinism=c.get('det', True))
@@ -904,6 +967,11 @@ def run_jobs(fn, jobs, nproc):
 
 def replay(ctx, rp):
   c = rp['case']
+  if c.get('kind') == 'nsga2':
+    class _C:
+      hits = []
+      def hit(self, *a): self.hits.append(a)
+    print('  nsga2 cases are regenerated from the seed; re-run ./check C14'); return False
   if c.get('kind') == 'crossover-sweep':
     pg, base, M, R, S, W = lib()
     try:
